@@ -205,7 +205,7 @@ impl Prop for C14Prop {
         vec![Section {
             name: "inputs",
             kind: SectionKind::Random {
-                cases: tier.pick(40_000, 1_000_000),
+                cases: tier.pick(40_000, 400_000),
                 maxlen: 700,
             },
             exhaustive: false,
